@@ -108,6 +108,8 @@ type Op struct {
 	Retype bool `json:"retype,omitempty"`
 	// an UpdateItem without UpdateExpression (a nil pointer in the request)
 	NoExpr bool `json:"noExpr,omitempty"`
+	// setFailure through the older helpers ActiveForceFailure / DeactiveForceFailure (same effect as EmulateFailure)
+	Legacy bool `json:"legacy,omitempty"`
 	FilterTree *Cond `json:"filterTree,omitempty"`
 
 	// not on the wire: placeholders as Go maps
